@@ -14,7 +14,7 @@ use oracle::{gf, segment};
 use serde_json::json;
 
 pub const ID: &str = "C02";
-pub const FAMS: [&str; 6] = ["cell-full", "cell-short", "cell-random", "crafted-blocks", "fingerprint-collision-pair", "no-level-given"];
+pub const FAMS: [&str; 7] = ["cell-full", "cell-short", "cell-random", "crafted-blocks", "fingerprint-collision-pair", "no-level-given", "long-history"];
 
 pub fn jobs(ctx: &Ctx) -> Vec<Job> {
     let caps = &ctx.caps;
@@ -73,6 +73,14 @@ pub fn jobs(ctx: &Ctx) -> Vec<Job> {
             let len = if version.is_none() { crate::cells::native_range(caps, v, oracle::tables::Q, class).1 } else { len };
             jobs.push(Job { fam: FAMS[5], class, mode: if k % 3 == 0 { None } else { Some(class) }, level: None, version, mask: rotate_mask(k + v), len, gen: if k % 2 == 0 { GEN_RANDOM } else { GEN_RAMP }, seed: mix(ctx.seed, k as u64), ..Default::default() });
         }
+    }
+    // long single-thread build histories: a bigger symbol, then a run of exactly 254..258 / 510..514 (thorough, one history:
+    // 65,534..65,538) builds of the smallest symbols, then a symbol WITH remainder bits that is smaller than the first one - every
+    // build of the run is checked like any other. Lazy clearing by generation stamps, counters that wrap after 2^8 or
+    // 2^16 builds and "high-water marks" only show after that many calls on one thread, which a shuffled pool never makes.
+    for i in 0..ctx.tier.pick(10usize, 40) {
+        k += 1;
+        jobs.push(Job { fam: FAMS[6], class: 2, mode: Some(2), level: Some(i % 4), version: Some(2 + i % 5), mask: rotate_mask(k), len: 3, gen: 0, seed: mix(ctx.seed, k as u64 ^ 0x10e6), aux: [if i == 0 && ctx.tier == crate::fw::Tier::Thorough { 65_536 } else if i % 2 == 1 { 256 } else { 512 }, 0, 0, 0], ..Default::default() });
     }
     // pairs of different payloads of one length whose DATA CODEWORDS (or whose bytes) collide under a popular cheap
     // fingerprint (collide.rs), built one right after the other on the same thread with the same options:
@@ -153,6 +161,39 @@ fn observe_pair(ctx: &Ctx, st: &mut Stats, job: &Job) {
 pub fn observe(ctx: &Ctx, st: &mut Stats, job: &Job) {
     if job.fam == FAMS[4] {
         return observe_pair(ctx, st, job);
+    }
+    if job.fam == FAMS[6] {
+        // version b (2..6: remainder bits) after a bigger version a and a run of V1 builds whose length walks around the
+        // wrap point; three cycles so that the total number of builds on this thread since the big one passes the wrap
+        // point at -2 .. +2
+        let mut rng = Rng::new(job.seed);
+        let wrap = job.aux[0] as usize;
+        let b = job.version.unwrap();
+        for delta in [-2i64, -1, 0, 1, 2] {
+            let a = (b + 1 + rng.below(8)).min(40);
+            let mut seq: Vec<Job> = Vec::new();
+            seq.push(Job { fam: FAMS[2], version: Some(a), len: ctx.caps.cap(a, job.level.unwrap(), 2), gen: GEN_RANDOM, seed: rng.next_u64(), aux: [0; 4], ..job.clone() });
+            let run = (wrap as i64 + delta - 1).max(1) as usize;
+            for _ in 0..run {
+                seq.push(Job { fam: FAMS[2], version: Some(1), len: 1 + rng.below(6), gen: GEN_RAMP, seed: rng.next_u64(), aux: [0; 4], ..job.clone() });
+            }
+            seq.push(Job { fam: FAMS[2], version: Some(b), len: 1 + rng.below(ctx.caps.cap(b, job.level.unwrap(), 2)), gen: GEN_RANDOM, seed: rng.next_u64(), aux: [0; 4], ..job.clone() });
+            for (i, j) in seq.iter().enumerate() {
+                let before = st.violations.len();
+                // the run itself is thinned in the evidence, not in the execution: every build is checked
+                observe(ctx, st, j);
+                if st.violations.len() > before {
+                    for v in &mut st.violations[before..] {
+                        v.detail = format!("{} (build {i} of a single-thread history: version {a}, then {run} builds of version 1, then version {b})", v.detail);
+                        v.job = job.to_json();
+                    }
+                    return;
+                }
+            }
+            st.count("long_history_builds_checked", seq.len() as u64);
+        }
+        st.max("longest_run_of_small_builds_between_two_bigger_ones", (wrap + 1) as u64);
+        return;
     }
     let cfg = job.config();
     st.eval();
@@ -309,7 +350,7 @@ pub fn run(ctx: &Ctx) -> Report {
     });
     let mut rep = Report::new(
         st,
-        "jobs = all 160 (version, level) cells x {capacity-filling, short} non-periodic payloads (thorough: + random lengths per cell), mask rotating over 0..7 and automatic; + no level given (pinned and automatic version, lengths that would also fit level H in the pinned version): the layout must be the level-Q one the format information announces; each build is read out from module values (unmask, zig-zag, de-interleave by the oracle's Table 9) and every block's syndromes S_0..S_{ec-1}, the remainder bits and the codeword count are checked; then floor(ec/2) random/burst codeword errors per block are injected and must be corrected; distinct key = (options, len, payload hash), non-trivial = non-empty payload",
+        "jobs = all 160 (version, level) cells x {capacity-filling, short} non-periodic payloads (thorough: + random lengths per cell), mask rotating over 0..7 and automatic; + long single-thread histories (bigger symbol, 254..258 / 510..514 (thorough also 65,534..65,538) smallest symbols, then a smaller symbol with remainder bits; every build checked) + no level given (pinned and automatic version, lengths that would also fit level H in the pinned version): the layout must be the level-Q one the format information announces; each build is read out from module values (unmask, zig-zag, de-interleave by the oracle's Table 9) and every block's syndromes S_0..S_{ec-1}, the remainder bits and the codeword count are checked; then floor(ec/2) random/burst codeword errors per block are injected and must be corrected; distinct key = (options, len, payload hash), non-trivial = non-empty payload",
     );
     rep.expected_sets = vec![("version_level", 160), ("blocklen_ec_pairs", 98)];
     rep.required_sets = vec![("version_level", 160)];
